@@ -27,8 +27,8 @@ Theorem C07_refuted : exists ops1 ops2 id v,
   read_at (nrun (ops1 ++ ops2)) id v <> read_at (nrun ops1) id v.
 Proof. exact read_refuted. Qed.
 
-(* relationships (and the nodes of model/Mvcc.v): for every history ops1 of create / set /
-   transaction / gc calls and every continuation ops2, a read at a version older than
+(* relationships (and the nodes of model/Mvcc.v): for every history ops1 of create (with or
+   without properties) / set / remove property / transaction / gc calls and every continuation ops2, a read at a version older than
    current_version never changes afterwards; a collection in ops2 must be gc_versions(w) with
    w <= v (reads below a collection's watermark are given up by design, C08) *)
 Theorem C07_read_stable_edge : forall ops1 ops2 v,
@@ -61,6 +61,20 @@ Example C07_nonvacuous_edge :
   read_edge (Mvcc.run ops1) 2 1 = None /\
   read_edge (Mvcc.run (ops1 ++ ops2)) 2 3 = Some {| v_ver := 3; v_props := [(1, 6)] |} /\
   read_edge (Mvcc.run (ops1 ++ ops2)) 2 4 = Some {| v_ver := 4; v_props := [(1, 7)] |}.
+Proof. vm_compute. repeat split; reflexivity. Qed.
+
+(* the same for relationships filled by the loader's setter at creation (Cypher CREATE / MERGE)
+   and for property removal (REMOVE r.k, SET r = {..}), which is a versioned change *)
+Example C07_nonvacuous_edge_remove :
+  let ops1 := [Mvcc.CreateNode []; Mvcc.CreateNode []; CreateEdgeP 1 2 [(0, 1)]; Tx (Begin RC); Tx (Commit 1);
+               CreateEdgeP 2 1 [(1, 4)]; Tx (Begin RC); Tx (Commit 2)] in
+  let ops2 := [RemoveEdge 1 0; RemoveEdge 2 1; RemoveEdge 2 0] in
+  curv (Mvcc.run ops1) = 3 /\ forallb (gc_ok 2) ops2 = true /\
+  read_edge (Mvcc.run (ops1 ++ ops2)) 1 2 = Some {| v_ver := 1; v_props := [(0, 1)] |} /\
+  read_edge (Mvcc.run (ops1 ++ ops2)) 2 2 = Some {| v_ver := 2; v_props := [(1, 4)] |} /\
+  read_edge (Mvcc.run (ops1 ++ ops2)) 2 1 = None /\
+  read_edge (Mvcc.run (ops1 ++ ops2)) 1 3 = Some {| v_ver := 3; v_props := [] |} /\
+  read_edge (Mvcc.run (ops1 ++ ops2)) 2 3 = Some {| v_ver := 3; v_props := [] |}.
 Proof. vm_compute. repeat split; reflexivity. Qed.
 
 (* a node read is the state as of that version in the append-only history of acknowledged
